@@ -74,6 +74,21 @@ class Report:
         self.paths = {}
         self.extra = {}
 
+def referenced_contract_pkgs(spec, pkgs):
+    """packages (transitively) imported by `pkgs` that contain functions under contract"""
+    import subprocess, json
+    have = {pkg_of_key(c.key) for c in spec.contracts if c.kind == 'func' and not c.key.startswith(('natives:', 'goroot:'))}
+    if not (have - set(pkgs)):
+        return set()
+    mod = 'github.com/gopherjs/gopherjs/'
+    try:
+        out = subprocess.run(['go', 'list', '-deps', '-f', '{{.ImportPath}}'] + ['./' + p for p in pkgs], cwd=REPO, env=ENV,
+                             stdout=subprocess.PIPE, stderr=subprocess.DEVNULL, text=True, timeout=120).stdout.split()
+    except Exception:
+        return set()
+    deps = {d[len(mod):] for d in out if d.startswith(mod)}
+    return (have & deps) - set(pkgs)
+
 def run_go_functions(rep, spec, contracts, word=64, natives=(), extra_pkgs=(), verbose=False):
     from .goverify import GoVerifier
     keys = [c.key.split('#lit')[0] for c in contracts]
@@ -83,6 +98,10 @@ def run_go_functions(rep, spec, contracts, word=64, natives=(), extra_pkgs=(), v
             inl |= set(cl.text.replace(',', ' ').split())
     pkgs = sorted({pkg_of_key(k) for k in list(keys) + list(inl) if not k.startswith(('natives:', 'goroot:'))} | set(extra_pkgs))
     natives = sorted(set(natives) | {pkg_of_key(k) for k in list(keys) + list(inl) if k.startswith(('natives:', 'goroot:'))})
+    # functions under contract in other packages may be called by the ones checked here: their declarations (parameter
+    # names for the contract) are needed too
+    called = referenced_contract_pkgs(spec, pkgs)
+    pkgs = sorted(set(pkgs) | called)
     allkeys = {c.key.split('#lit')[0] for c in spec.contracts if c.kind == 'func' and (pkg_of_key(c.key) in pkgs if not c.key.startswith(('natives:', 'goroot:')) else pkg_of_key(c.key) in natives)}
     gl = set()
     for c in contracts:
